@@ -290,7 +290,7 @@ def ratOps (pw : Rat → Rat → Rat) : Ops Rat := { isZero := fun x => decide (
 /-- IEEE binary64 instantiation used by the driver -/
 def floatOps : Ops Float :=
   { isZero := fun x => x == 0.0,
-    pow := fun x y => if y == 2.0 then x * x else Float.pow x y,
+    pow := Float.pow,        -- C `pow` of the platform libm, the call CPython's `float ** y` makes; `x ** 2` is not always `x * x` (glibc pow: < 1 ULP, not correctly rounded)
     toRat := fun x => (floatToRat? x).getD 0 }
 
 end Demeter.GmxV2
